@@ -415,10 +415,25 @@ class Analysis:
             for s in self.fn.blocks[bi]['stmts']:
                 if s['k'] == 'assign' and place_key(s['lhs']) == (root[0], ()) and s['rv']['k'] == 'use':
                     c = op_const(s['rv']['a'])
-                    if c is not None and c.get('ev_bytes') is not None and len(c['ev_bytes']) == 3 and 0 in c['ev_bytes']:
-                        bs = sorted(c['ev_bytes'])
-                        bs.remove(0)
-                        return (bs[0], bs[1])
+                    if c is None or c.get('ev_bytes') is None or c.get('ev_ty') is None:
+                        continue
+                    ety = self.fn.ty(c['ev_ty'])
+                    if not ety or ety.get('path') != 'core::ops::range::RangeInclusive' or not ety.get('args'):
+                        continue
+                    ity = self.fn.ty(ety['args'][0])
+                    if not ity or ity.get('k') != 'int' or ity.get('signed'):
+                        continue
+                    w = ity['bits'] // 8
+                    bs = c['ev_bytes']
+                    if w < 1 or len(bs) != 3 * w and not (w == 1 and len(bs) == 3):
+                        continue
+                    # three w-byte words in an unspecified field order: start, end and the `exhausted` flag (false,
+                    # padded with zeros): drop one zero word, the other two are the bounds
+                    words = sorted(int.from_bytes(bytes(bs[i:i + w]), 'little') for i in range(0, len(bs), w))
+                    if 0 not in words:
+                        continue
+                    words.remove(0)
+                    return (words[0], words[1])
         return None
 
     # ---- calls
@@ -582,6 +597,30 @@ class Analysis:
                 val = None
                 if cret is not None:
                     self._set_aux = ('some', cret)
+        elif callee.endswith(('Iterator::find', 'Iterator::position', 'Iterator::any', 'Iterator::all')) and len(args) == 2 and \
+                op_place(args[0]) is not None and \
+                st.get(('range', self.root_of_ref(place_key(op_place(args[0]))))) is not None:
+            # `(a..b).find(|&i| ..)`: the closure sees items in [a, b-1] (by reference for find) and a found item lies there
+            r0 = st.get(('range', self.root_of_ref(place_key(op_place(args[0])))))
+            val = (0, 1) if short in ('any', 'all') else None
+            cty = self.operand_ty(args[1])
+            if r0[1] - 1 >= r0[0]:
+                item = (r0[0], r0[1] - 1)
+                if cty is not None and cty['k'] == 'closure' and cty['def'] in self.facts.fns:
+                    cf = self.facts.fns[cty['def']]
+                    self.modelled_closures.add(cty['def'])
+                    pty = cf.local_ty(2) if cf.argc >= 2 else None
+                    pkey = (2, (('deref', ), )) if pty and pty.get('k') == 'ref' else 2
+                    Analysis(self.facts, cf, FnCtx({pkey: item}, self.ctx.fields, self.ctx.used), self.summaries,
+                             self.depth + 1, collector=self.collector)
+                if short == 'find':
+                    self._set_aux = ('some', item)
+        elif short == 'div_ceil' and len(args) == 2 and callee.split('::')[0] in ('u8', 'u16', 'u32', 'u64', 'usize', 'core'):
+            a, b = av
+            if a is not None and b is not None and b[0] >= 1 and a[0] >= 0:
+                val = (-(-a[0] // b[1]), -(-a[1] // b[0]))
+                if rng is not None:
+                    val = clip(val, rng)
         elif short in ('saturating_sub', 'wrapping_sub') and len(args) == 2:
             a, b = av
             if a is not None and b is not None and short == 'saturating_sub':
@@ -1037,7 +1076,7 @@ class Analysis:
         init = {}
         for i, iv in self.ctx.params.items():
             if iv is not None:
-                init[(i, ())] = iv
+                init[i if isinstance(i, tuple) else (i, ())] = iv
         for i, iv in self.ctx.lens.items():
             if iv is not None:
                 init[('len', (i, ()))] = iv
